@@ -28,7 +28,7 @@ pub struct Respacing;
 
 fn space_chars_of(spec: &DictSpec) -> Vec<char> {
     let rc = RefChars { def: &spec.chardef };
-    let bit = 1u32 << rc.space_idx().unwrap();
+    let bit = crate::refmodel::cat_bit(rc.space_idx().unwrap());
     crate::gen::dict::SPACE_CHARS
         .iter()
         .copied()
@@ -56,7 +56,7 @@ fn space_case() -> BoxedStrategy<SpaceCase> {
             let user = user_raw.map(|r| assemble_rows(&r, nl, nr, CostRegime::Medium, "W"));
             let urows: &[LexRow] = user.as_deref().unwrap_or(&[]);
             let rc = RefChars { def: &spec.chardef };
-            let bit = 1u32 << rc.space_idx().unwrap();
+            let bit = crate::refmodel::cat_bit(rc.space_idx().unwrap());
             let spaces = space_chars_of(&spec);
             let mut chunks = vec![];
             let mut sep_after = vec![];
